@@ -25,6 +25,9 @@ pub trait Flavor: Sized {
         ensures
             r is Ok ==> final(self).view() == old(self).view().push(data),
             r is Err ==> final(self).view() == old(self).view();
+    fn try_extend(&mut self, data: &[u8]) -> (r: Result<()>)
+        ensures
+            r is Ok ==> final(self).view() == old(self).view() + data@;
     fn set_at(&mut self, idx: usize, v: u8)
         requires idx < old(self).view().len()
         ensures final(self).view() == old(self).view().update(idx as int, v);
@@ -66,6 +69,13 @@ impl<B: Flavor> Cobs<B> {
         ensures r is Ok ==> final(self).wf() && final(self).machine() == push(old(self).machine(), data),   // @obl:C06.V.flavor.try_push""",
              inserts=[("fn:start", "        proof { self.flav.lemma_size_bound(); }")],
              obls=["C06.V.flavor.try_push"]),
+        # OPTIONAL: `impl Flavor for Cobs<B>` has no try_extend override on the pinned tree (the trait default == byte-wise pushes is used).
+        # If an override appears it must satisfy the trait's contract: extending with `data` == pushing its bytes one by one.
+        dict(kind="fn", file=F, within=COBS_FLAVOR_IMPL, name="try_extend", optional=True, qual="postcard::ser::flavors::<impl Flavor for Cobs<B>>::try_extend",
+             rewrites=[(r"self\.flav\[idx\] = mval;", "self.flav.set_at(idx, mval);", 0, 9)],
+             sig="""        requires old(self).wf()
+        ensures r is Ok ==> final(self).wf() && final(self).machine() == run(old(self).machine(), data@),   // @obl:C06.V.flavor.try_extend""",
+             obls=["C06.V.flavor.try_extend"]),
         dict(kind="fn", file=F, within=COBS_FLAVOR_IMPL, name="finalize", qual="postcard::ser::flavors::<impl Flavor for Cobs<B>>::finalize",
              rewrites=[(r"self\.flav\[idx\] = mval;", "self.flav.set_at(idx, mval);", 0, 9),   # D11
                        (r"-> Result<Self::Output>", "-> Result<B::Output>", 1, 1),             # the method is extracted into an inherent impl
